@@ -4,7 +4,7 @@
 (* node table; `leaves` is the ground truth it must be the canonical tree of.*)
 EXTENDS AkdTrie, Json
 
-CONSTANTS D, MaxEpoch, MaxLeaves, Export
+CONSTANTS D, MaxEpoch, MaxLeaves, Export, MaxU, MaxI
 
 VARIABLES store, azks, leaves
 
@@ -68,6 +68,13 @@ AuditAllRanges ==
     LET pr == AuditStep(store, Cur, i) IN
     /\ AuditorAccepts(pr.unchanged, pr.inserted, CanonRoot(LeavesUpTo(i), "dir"), CanonRoot(LeavesUpTo(i + 1), "dir"), i + 1, FALSE)
     /\ pr.inserted = { [label |-> x.label, value |-> x.value] : x \in { y \in leaves : y.ep = i + 1 } }
+
+(* C09: no append-only proof assembled from real nodes passes a transition that loses a committed leaf *)
+AuditSound == AuditSoundAt(store, Cur, D, { <<"V", 1>>, <<"V", 2>> }, MaxU, MaxI)
+(* an honest single-epoch proof whose list repeats an element is rejected *)
+AuditDupRejected ==
+  Cur > 0 => LET pr == AuditStep(store, Cur, Cur - 1) IN
+             ~AuditorAccepts(pr.unchanged, pr.inserted, CanonRoot(LeavesUpTo(Cur - 1), "dir"), Root, Cur, TRUE)
 
 (* C14: splitting a batch into two sub-batches inserted at the same epoch gives the same tree *)
 OrderIndependence ==
